@@ -1174,6 +1174,7 @@ package router
 //@   callsite mustHaveRespB?: [C03:fallback-answer] arg2 == dnsmsg.RCodeRefused && arg3 == true
 // only the READ of the query is bounded (1 s); no deadline is put on writing the answer, which may take as long as
 // the router's own request deadline allows
+//@   callsite SetReadDeadline: [C03:only-the-read-of-the-query-is-bounded] arg0 == stream
 //@   callsite SetDeadline?: [C03:response-not-cut-before-the-request-deadline] false
 //@   callsite SetWriteDeadline?: [C03:response-not-cut-before-the-request-deadline] false
 
